@@ -676,6 +676,10 @@ def directed_cases():
     add("normal minus", lambda p: p.n("-")[0])
     add("normal plus", lambda p: p.n("+")[0])
     add("normal both, default minus", lambda p: p.n("-")[0] + p.n("+")[0], "-")
+    add("normal plus, default minus", lambda p: p.n("+")[0], "-")
+    add("normal minus, default minus", lambda p: p.n("-")[0], "-")
+    add("normals weighted, default minus", lambda p: 2 * p.n("+")[0] + p.n("-")[1] * p.disc[()][0]("+"), "-")
+    add("normals weighted, default plus", lambda p: 2 * p.n("-")[0] + p.n("+")[1] * p.disc[()][0]("-"))
     add("two normals of two meshes", lambda p: p.n("-")[0] * C.FacetNormal(p.mesh2)("-")[0])
     add("jump of H1 coefficient times normal", lambda p: ufl.jump(p.cont[()][0], p.n)[0])
     add("avg of DG", lambda p: ufl.avg(p.disc[()][0]))
